@@ -43,6 +43,9 @@ int as_snprcatf(char* pDest, size_t DestSize, const char* pFormat, ...) { (void)
 int as_sdprintf(struct as_dynstr* p_dest, const char* pFormat, ...) { (void)p_dest; (void)pFormat; return 0; }
 int as_sdprcatf(struct as_dynstr* p_dest, const char* pFormat, ...) { (void)p_dest; (void)pFormat; return 0; }
 #endif
+#ifdef K_XREF
+Integer GetFileNum(char* Name) { (void)Name; return 0; }
+#endif
 #ifdef K_PADLABEL
 #include "asmlabel.h"
 #include "asmstructs.h"
@@ -372,6 +375,27 @@ void harness(void)
         if (!isdef && c == 3 && (k == 4)) WITNESS("third-last backward reference");
       }
     }
+  }
+#elif defined(K_XREF)
+  {
+    /* C17: the cross-reference option (-C) must not influence assembly.  With MakeCrossList on, every look-up records a
+       reference (AddReference); what IFUSED/IFDEF observe -- the Used and Defined state of the symbol -- must be the same
+       as with the option off: only an evaluation (LookupSymbol) marks a symbol used, the IFDEF/IFUSED look-ups do not. */
+    static char fn[2] = "f"; TempResult v; int k; Boolean used = False;
+    as_tempres_ini(&v);
+    MakeCrossList = in_prev_def[0] & 1; DoRefs = True; CurrFileName = fn; CurrLine = 1; PassNo = 2;
+    EnterIntSymbolWithFlags(&cL, in_ev_val[0], SegNone, False, eSymbolFlag_None);
+    CHECK(diag_cnt == 0, "definition raises nothing");
+    for (k = 0; k < 3; k++)
+    {
+      unsigned what = in_ev_kind[k];
+      ASSUME(what < 3);
+      if (what == 0) { CHECK(IsSymbolDefined(&cL), "IFDEF sees the definition"); }
+      else if (what == 1) { CHECK(!!IsSymbolUsed(&cL) == !!used, "IFUSED is true exactly after the symbol was evaluated, with or without -C"); }
+      else { LookupSymbol(&cL, &v, False, TempInt); used = True; CHECK(v.Typ == TempInt && v.Contents.Int == in_ev_val[0], "evaluation yields the value"); }
+    }
+    CHECK(!!IsSymbolUsed(&cL) == !!used, "IFUSED is true exactly after the symbol was evaluated, with or without -C");
+    if (MakeCrossList && !used) WITNESS("-C on, symbol only tested");
   }
 #endif
   WITNESS("end");
